@@ -150,6 +150,7 @@ func clearCaches() {
 	helperFactsMemo = map[*ssa.Function]*siteFacts{}
 	nonNilFnMemo = map[*ssa.Function]int{}
 	constCmpMemo = map[*ssa.Function]map[*ssa.BasicBlock]*constCmpT{}
+	branchedPhiMemo = map[*ssa.Function]map[*ssa.Phi]bool{}
 	pureMemo = map[*ssa.Function]*string{}
 	tupleMemo = map[*ssa.Function]map[int]*string{}
 	runtime.GC()
